@@ -228,10 +228,13 @@ class Object3d:
             ``return_inverse=True``.
         """
         data = self.flatten()._data.round(10)
-        data = data[~np.all(np.isclose(data, 0), axis=1)]  # Remove zeros
+        is_nonzero = ~np.all(np.isclose(data, 0), axis=1)
+        data = data[is_nonzero]  # Remove zeros
         _, idx, inv = np.unique(data, axis=0, return_index=True, return_inverse=True)
         obj = self.__class__(data[np.sort(idx), : self.dim])
         obj._data = data[np.sort(idx)]
+        # Indices into the flattened data, zero-entries included
+        idx = np.flatnonzero(is_nonzero)[idx]
         if return_index and return_inverse:
             return obj, idx, inv
         elif return_index and not return_inverse:
